@@ -280,3 +280,8 @@ for _p, _names in (("C09", ["wired-process"]), ("C14", ["walk-interleaved-with-w
         PROPS[_p]["probes_expected"][_tier] = PROPS[_p]["probes_expected"][_tier] + _names
 PROPS["C15"]["rule"] += (" A third of the cases also enumerate SOURCE positions (opening a source object fails; its k-th chunk fails while the destination object is half written); part B has a"
                          " source-read variant of the atomic copy (the only failure is one read error on the source; violations there carry the signature namespace source-read).")
+
+# wave 13 additions
+PROPS["C02"]["rule"] += (" One run in three adds a fixed-shape output: a file that takes a type from each of 3-8 files it reaches only through the public imports of a hub, restricted to its message by a type filter; its dependency list is compared, four times per execution.")
+PROPS["C09"]["rule"] += (" One universe in 25 has a module of 257-420 files (more than any chunk or worker pool of a copy holds at once); crash states are sampled one in 29 there.")
+PROPS["C15"]["rule"] += (" One more write path: two plugin responses into one directory, the second inserting into the first one's file, with an expectation computed by the harness and boundary shapes (a 70 000 byte line below the insertion point / in the inserted content): the path may refuse the input with an error, it may not report success with less than everything.")
